@@ -21,8 +21,11 @@ var props = map[string]propCfg{
 	"C10": {engine: "bus", gen: true, race: true, level: "exploration", qShards: 6, tShards: 16, qTimeout: 8 * time.Minute, assume: busAssume},
 	"C11": {engine: "bus", gen: true, race: true, level: "fault_enumeration", qShards: 12, tShards: 16, assume: busAssume},
 	"C13": {engine: "bus", gen: true, race: true, level: "exploration", qShards: 12, tShards: 16, assume: busAssume},
+	"C14": {engine: "bus", gen: true, race: true, level: "exploration", qShards: 12, tShards: 16, assume: busAssume},
+	"C15": {engine: "bus", gen: true, race: true, raceViol: true, racePkg: "qiloop/bus/directory", level: "exploration", qShards: 12, tShards: 16, assume: busAssume},
 	"C16": {engine: "bus", gen: true, race: true, level: "exploration", qShards: 12, tShards: 16, assume: busAssume},
 	"C17": {engine: "bus", gen: true, race: true, raceViol: true, racePkg: "qiloop/bus/net", level: "exploration", qShards: 12, tShards: 16, assume: busAssume},
+	"C19": {engine: "bus", gen: true, race: true, raceViol: true, racePkg: "qiloop/bus/session", level: "exploration", qShards: 12, tShards: 16, assume: busAssume},
 }
 
 var busAssume = []string{
